@@ -131,6 +131,24 @@ func hostileBodies(rng *gen.RNG) []string {
 			`{"secret":"GEZDGNBVGY3TQOJQ","issuer":"i","account_name":"a","type":"`+big+`"}`,
 			`{"raw_suite":"`+big+`"}`)
 	}
+	// very long string fields in every character class (what is cheap for one class of characters need not be for another):
+	// lower-case / mixed-case / upper-case letters, digits, padding, blanks, percent signs, non-ASCII letters, hex
+	classes := []string{"a", "aB", "A", "7", "=", " ", "%", "\u00e9", "ab12", "MZXW6YTB", "k\u212a"}
+	for _, field := range []string{"secret", "code", "raw_suite", "issuer"} {
+		for ci, cl := range classes {
+			for _, size := range []int{200 << 10, 900 << 10} {
+				if (ci+len(field))%2 == 0 && size > 300<<10 {
+					continue // half of the classes at the larger size only
+				}
+				big := strings.Repeat(cl, size/len(cl))
+				m := map[string]any{"secret": "GEZDGNBVGY3TQOJQGEZDGNBVGY3TQOJQ", "code": "123456", "counter": 7, "timestamp": 1700000000, "raw_suite": "OCRA-1:HOTP-SHA1-6:QN08",
+					"input": map[string]any{"challenge_hex": "3132333435363738"}, "issuer": "i", "account_name": "a", "type": "totp"}
+				m[field] = big
+				b, _ := json.Marshal(m)
+				out = append(out, string(b))
+			}
+		}
+	}
 	return out
 }
 
